@@ -391,6 +391,35 @@ def observe_history(exe, r, c, run, witness, stats):
                     witness, datagram=e["b"], request_pivs=[p.hex() for p in req_pivs]),
                     "protected response %s does not open with the reference for any request "
                     "Partial IV that carried its token" % e["b"])
+        # RFC 8613 4.1.3.5.2: the Observe value the client application is given for a
+        # notification that carries its own Partial IV is the three least significant bytes
+        # of that Partial IV (so that notifications can be ordered)
+        notifs = []
+        for e in sim.log:
+            if e["e"] == "wire" and e["from"].startswith("10.0.0.2"):
+                try:
+                    m = cw.decode(bytes.fromhex(e["b"]), "udp")
+                    ov = [v for n, v in m["options"] if n == 9]
+                    if ov and m["token"] == tok:
+                        notifs.append((e["t"], O.decode_oscore_option(ov[0], strict=False)["piv"]))
+                except Exception:
+                    pass
+        for e in got:
+            o6 = [x.split("=")[1] for x in (e.get("opts") or "").split(";") if x.startswith("6=")]
+            # (the datagrams that can have caused this call: written at most 2 ms earlier)
+            cands = [pv for t, pv in notifs if e["t"] - 2 <= t <= e["t"]]
+            if not o6 or not cands or not all(cands):
+                continue
+            want = set(int.from_bytes(pv[-3:], "big") for pv in cands)
+            have = int(o6[0], 16) if o6[0] else 0
+            stats["observe_values_compared"] = stats.get("observe_values_compared", 0) + 1
+            if have not in want:
+                run.violation("oscore-notification-observe-value-not-from-its-partial-iv", dict(
+                    witness, delivered=o6[0], partial_ivs=[pv.hex() for pv in cands]),
+                    "a notification protected under Partial IV %s was handed to the "
+                    "application with Observe %s" % ("/".join(pv.hex() for pv in cands),
+                                                     o6[0] or "(empty)"))
+                break
         world.teardown_check(run, "C14/observe", w, witness)
     finally:
         if not w.closed:
